@@ -106,6 +106,10 @@ class Cache:
         for filename, operation in files.items():
             self._norm_cased_files[os.path.normcase(filename)] = operation
 
+        # The non-norm-cased filenames passed to start_building_file. Guarded
+        # by _files_lock.
+        self._rebuilt_files = set()
+
     @staticmethod
     def create_empty_mutable(build_name, func_versions):
         """Return a new empty mutable ``Cache`` object.
@@ -188,6 +192,7 @@ class Cache:
                 norm_cased_filename, filename)
             self._files[filename] = None
             self._norm_cased_files[norm_cased_filename] = None
+            self._rebuilt_files.add(filename)
 
     def finish_building_file(self, operation):
         """Record the result of building the specified file.
@@ -218,6 +223,15 @@ class Cache:
         """
         with self._files_lock:
             return norm_cased_filename in self._norm_cased_files
+
+    def rebuilt_file(self, filename):
+        """Return whether we (re)built the specified file in this build.
+
+        Return whether we called ``start_building_file`` for the given
+        non-norm-cased filename, as opposed to reusing a cached result.
+        """
+        with self._files_lock:
+            return filename in self._rebuilt_files
 
     def created_file(self, filename):
         """Return whether we created the specified non-norm-cased file.
